@@ -114,6 +114,11 @@ def impl_quad(c):
         out['kappa'] = float('inf')
     w = it.get_quadrature_coefficients()
     out['weights'] = qs([ff(v) for v in w])
+    # the weights are a function of the space: a second request, a second interpolator on the same BSplines
+    # object and the stored integrals afterwards must not depend on the requests made before
+    out['weights_again'] = qs([ff(v) for v in it.get_quadrature_coefficients()])
+    out['weights_other'] = qs([ff(v) for v in SplineInterpolator1D(b).get_quadrature_coefficients()])
+    out['integrals_after'] = qs([ff(v) for v in b.integrals])
     s = Spline1D(b)
     out['coeffs'] = []
     for d in c['data']:
@@ -280,6 +285,31 @@ def check_case(chk, c, r, m, stats):
                           % (float(lhs), float(rhs), bound_q, tag, spd['nc']), dict(rep_i, data_index=j))
         elif known is None:
             stats['max_ratio_interpolant'] = max(stats['max_ratio_interpolant'], dq / bound_q)
+    # --- repeated requests (state left behind by an earlier request)
+    chk.count((spd['breaks'], spd['p'], spd['periodic'], 'repeat'), stratum='repeated-request:' + tag + cls)
+    if r.get('integrals_after', r['integrals']) != r['integrals']:
+        Ia = [qparse(t) for t in r['integrals_after'].split()]
+        erra = max(abs(float(x - y)) for x, y in zip(fold(Ia), fold(Itrue)))
+        chk.violation('splines.integrals:changed-by-quadrature-request:%s' % tag,
+                      'BSplines.integrals changed after get_quadrature_coefficients(): now off the exact integrals by %.3g on %s, %d cells'
+                      % (erra, tag, spd['nc']), dict(rep_i, integrals_after=r['integrals_after']), no_input=(erra <= bound_i))
+    for label, fld in (('a second request on the same interpolator', 'weights_again'),
+                       ('a second interpolator on the same BSplines object', 'weights_other')):
+        if r.get(fld, r['weights']) == r['weights']:
+            continue
+        w2 = [qparse(t) for t in r[fld].split()]
+        worst = 0.0
+        for j, d in enumerate(c['data']):
+            u = [qparse(t) for t in d.split()]
+            cf = [qparse(t) for t in r['coeffs'][j].split()]
+            lhs = sum(w * ui for w, ui in zip(w2, u))
+            rhs = sum(cj * Ij for cj, Ij in zip(cf, Itrue))
+            sc = sum(abs(float(w * ui)) for w, ui in zip(w2, u)) + sum(abs(float(cj * Ij)) for cj, Ij in zip(cf, Itrue)) + 1e-300
+            worst = max(worst, abs(float(lhs - rhs)) / (KB * nb * EPS * kappa * sc))
+        chk.violation('spline_interpolators.get_quadrature_coefficients:repeated-request:%s' % tag,
+                      'the weights returned by %s differ from the first ones; sum w_i u_i is off the integral of the interpolant by '
+                      '%.3g times the bound on %s, %d cells' % (label, worst, tag, spd['nc']),
+                      dict(rep_i, which=fld, weights_repeated=r[fld]), no_input=(worst <= 1.0))
     # --- model weights
     if 'quad' in m:
         mq = m['quad']
